@@ -36,6 +36,12 @@ func init() {
 					}
 				}
 				c.setExtra("cases_also_run_under_race_detector", len(rr))
+				if strings.HasPrefix(cfg, "Solutions_") {
+					// recorded schedules (hooks in Next, Close and the search goroutine) validated against SolutionsTrace.tla
+					traces := c.recordTraces("soltrace", r.cases, replayOpts{timeout: 30e9, every: 8}, func(cs map[string]J) map[string]J { return map[string]J{} })
+					c.validateTraces("soltrace", "SolutionsTrace", "SolutionsTrace.cfg", traces, traceOpts{deque: true})
+					c.bindingSelfTest("SolutionsTrace", "SolutionsTrace.cfg", traces, 4)
+				}
 				cases, results := c.replay("solutions", r.cases, replayOpts{timeout: 30e9})
 				c.judge("solutions", cases, results, func(cs, res map[string]J) string {
 					in, _ := res["input"].(string)
